@@ -355,7 +355,14 @@ static Verdict runInner(const Case& c)
             else
             {
                Q diff = qabs(zr + objoff + lp.offset - c.pl.z);
-               if(diff > Q(1, 1000000) * (1 + qabs(c.pl.z)) + sens)
+               if(diff > Q(1, 1000000) * (1 + qabs(c.pl.z)) + sens && z3HasNonWorseningRay(lp) != 0)
+               {
+                  // the original LP has a recession direction of exactly zero cost: rounding an aggregated coefficient by 1e-16
+                  // turns it into a (slightly) improving or worsening direction and the optimum of the rounded reduced LP moves
+                  // by O(1) at |x| ~ 1e16; ill-posed in the same sense as an UNBOUNDED verdict on such an LP: counted
+                  illB = true;
+               }
+               else if(diff > Q(1, 1000000) * (1 + qabs(c.pl.z)) + sens)
                {
                   // objective of the reduced problem may legitimately move only by rounding
                   bad("has optimum " + fmtd(zr + objoff + lp.offset) + " (expected " + fmtd(c.pl.z) + ")");
